@@ -556,7 +556,17 @@ def oracle_c15(c, a, b):
         n = int(m.group(2))
         if n not in (4, 16) or len(m.group(1)) != 2 * n:
             return "rr_ip reported a length of %d for an address of %d bytes (an address is 4 or 16 bytes whatever capacity was announced)" % (n, len(m.group(1)) // 2)
+
     ops = [o.strip() for o in re.sub(r" #\S*$", "", " ".join(w[2:])).split(" ; ")]
+    # reads made before the script changes anything: the address copied out is the data of an A / AAAA record of the input
+    for op, piece in zip(ops, pieces):
+        ow = op.split(" ")
+        if not (ow[0] == "iter" and len(ow) >= 4 and ow[3] in ("ip", "ipcap", "name", "type")):
+            break
+        for m in re.finditer(r"ip=([0-9a-f]*)/(\d+)", piece):
+            n = int(m.group(2))
+            if "%04x%s" % (n, m.group(1)) not in w[1]:
+                return "rr_ip copied out %s (%d bytes), which is not the data of any A/AAAA record of the packet" % (m.group(1), n)
     for op, piece in zip(ops, pieces):
         ow = op.split(" ")
         if ow[0] == "rawpacket" and len(ow) == 2:
@@ -804,7 +814,7 @@ PROPS = {
     },
     "C16": {
         "module": "DnsModel.Theorems.C16", "theorems": ["Dns.C16.private_slot", "Dns.C16.other_threads_commute", "Dns.C16.read_preserves"],
-        "families": [{"name": "errslots-many", "quick": 0, "thorough": 0, "fixed": True}, {"name": "errslots-exhaustive", "quick": 0, "thorough": 0, "fixed": True}, {"name": "errslots", "quick": 300, "thorough": 5000}],
+        "families": [{"name": "errslots-kinds", "quick": 0, "thorough": 0, "fixed": True}, {"name": "errslots-many", "quick": 0, "thorough": 0, "fixed": True}, {"name": "errslots-exhaustive", "quick": 0, "thorough": 0, "fixed": True}, {"name": "errslots", "quick": 300, "thorough": 5000}],
         "oracle": oracle_c16, "nontrivial": lambda c, a: "f" in c, "shrink": False,
         "rule": "all 20 interleavings of 2 threads x 3 steps x 64 assignments of step kinds (failing calls, reads, successful calls made with the same error variable; exhaustive), plus sampled 3- and 4-thread schedules; real threads stepped in the scripted global order; on every other failing call the caller's error variable already holds the pointer most recently handed to any thread (the argument is output-only)",
         "level": "proof", "explanation": "", "assumptions": ["thread_local! gives each thread its own cell (what the schedules probe)"],
